@@ -160,6 +160,19 @@ class Interp:
     def ref_lens(self, k):
         return [int(x) for x in self.ref.vars[k].lengths]
 
+    def fit_col(self, v, rs, j):
+        """fold an integer column template onto the shortest selected row (read from the fresh world), keeping the
+        possibility of being out of range by one on either side: mostly-valid columns are what exercises view geometry"""
+        try:
+            sel = self.ref.vars[v][py_sel(rs)]
+            lens = [int(x) for x in sel.lengths] if hasattr(sel, "lengths") else [len(sel)]
+        except Exception:  # noqa: BLE001 - the row selector itself is refused: leave the column as drawn
+            return j
+        if not lens:
+            return j
+        mn = min(lens)
+        return j % (2 * mn + 2) - mn - 1
+
     # ------------------------------------------------------------ step resolution
     def resolve(self, step):
         """-> (resolved step, target var, kind) or None when not applicable"""
@@ -169,7 +182,11 @@ class Interp:
         lens = self.ref_lens(v)
         nr = len(lens)
         if op == "index":
-            return ["index", v, fit_rsel(step[2], nr), step[3]]
+            rs = fit_rsel(step[2], nr)
+            cs = step[3]
+            if cs is not None and cs[0] == "i":
+                cs = ["i", self.fit_col(v, rs, cs[1]), cs[2]]
+            return ["index", v, rs, cs]
         if op == "assign":
             rs = fit_rsel(step[2], nr, norepeat=True)
             cs = step[3]
@@ -215,7 +232,8 @@ class Interp:
             j = step[3] % (2 * L + 2) - L - 1 if L else step[3] % 3 - 1
             return ["cell", v, i, j]
         if op == "colread":
-            return ["colread", v, fit_rsel(step[2], nr), step[3]]
+            rs = fit_rsel(step[2], nr)
+            return ["colread", v, rs, self.fit_col(v, rs, step[3])]
         if op == "maskselect":
             return ["maskselect", v, step[2], step[3]]
         if op == "rslice":
